@@ -166,6 +166,7 @@ def concrete_for(ex, node, items, fr, spec, ordinal):
     inv = spec["inv"]
     make_state = spec["state"]
     n = len(items)
+    fr.env.vars["_items"] = tuple(items)
     ex.check(f"loop{ordinal}.inv_on_entry", eval_clause(ex, inv, _inv_env(fr, {"_i": 0, "_n": n})))
     which = ex.choose(2, tag=f"loop{ordinal}")
     if which == 1:
@@ -182,6 +183,8 @@ def concrete_for(ex, node, items, fr, spec, ordinal):
         except BreakSig:
             raise Unsupported("break inside a loop under the invariant rule")
         ex.check(f"loop{ordinal}.inv_preserved", eval_clause(ex, inv, _inv_env(fr, {"_i": k + 1, "_n": n})))
+        for cb in ex.path_end_hooks:       # ghost-state obligations of the scenario also hold after any iteration
+            cb()
         raise PathEnd()
     fr.env.vars.update(make_state(ex, _inv_env(fr, {}), n))
     ex.check(f"loop{ordinal}.state_satisfies_inv", eval_clause(ex, inv, _inv_env(fr, {"_i": n, "_n": n})))
